@@ -20,6 +20,9 @@ RULE = ("A history (2-20 operations, one shrinkable list) over {train(), eval(),
         "is the exact inverse of eval forward in eval. Outputs, log-dets and state_dict are compared after EVERY step "
         "(1e-9). Forward passes also arrive through Flow.transform_to_noise of a training-mode flow wrapped around the layer (the layer keeps "
         "its own mode). Each forward/inverse runs with autograd on or inside torch.no_grad(); batch scales 3 .. 1e-5 (float64), offsets up to -1000. "
+        "1 case in 12: MaskedAutoregressiveFlow / SimpleRealNVP built with batch_norm_between_layers=True, 1-3 layers, 1-3 training-mode "
+        "log_prob passes; inputs of every batch-norm position are recorded with forward pre-hooks and each position's running statistics "
+        "must follow the momentum rule for the batches it saw. "
         "Non-trivial: a training forward followed later by a mode switch or save/load and another call.")
 ASSUMPTIONS = ["training-mode batches have >= 2 rows with non-constant columns", "no optimiser step is generated (parameters "
                "only change through the documented initialisation / running-statistics rule)"]
